@@ -239,7 +239,7 @@ def main():
             else:
                 rec["status"] = "survived"
                 rec["checks"] = {}
-                for c in FILES[f]:
+                for c in (os.environ.get("SWEEP_CHECKS", "").split(",") if os.environ.get("SWEEP_CHECKS") else FILES[f]):
                     rc, out = sh("./check %s --tier quick" % c, cwd=CHECK_HOME,
                                  env={"VERIF_REPO": WT}, timeout=900)
                     nv = out.count("VIOLATION property=")
